@@ -12,7 +12,7 @@ from simkit.pipe import open_frontend
 
 ID = "C04"
 LEVEL = "exploration"
-RUNS = {"quick": 12000, "thorough": 400000}
+RUNS = {"quick": 60000, "thorough": 1200000}
 RULE = ("seeded runs: statement/namespace sequence x options x legal-choice tape of the reference encoder "
         "(eviction policy, split points, explicit/zero ids, redundant entries, unrepeated terms, frame cuts, "
         "empty/metadata frames, repeated options, elided graph_end, version, delimiting) fed to one of the six "
